@@ -12,6 +12,8 @@ including every failing one) to every distinct reached state; (2) random histori
      (independent of the Coq model): child lists, "every listed child's parent is the lister",
      failing edit leaves nodelib.deep_state unchanged, shift returns the child's actual index and
      never fails on a listed child; all queries against their reading off the ordered tree;
+      every random / directed history is run once more on ONE set of long-lived objects with the
+     queries called between the edits (history sensitivity), and must give the same states;
  (B) correspondence — Model/Edits.v [exec]/queries evaluated inside Coq on the same transitions:
      children ids, parent ids, registry flags, return value, exception class."""
 import itertools
@@ -499,6 +501,35 @@ def random_history(ctx, chk, length, idx_pool):
     return ops, obs
 
 
+def live_pass(ctx, chk, ops, obs, label):
+    """History sensitivity: the same history once more on ONE set of long-lived objects (the
+    statement checks above rebuild fresh objects for every step), with all queries called
+    between the edits; every state and answer must equal what the fresh objects gave."""
+    names = chk.names
+    objs = mk_objects(names, initial_state(len(names)))
+    st = initial_state(len(names))
+    for k, op in enumerate(ops):
+        if k % 7 == 3:
+            q1 = q_observed(objs, chk.nnames, chk.paths, st)
+            q2 = q_expected(names, st[0], chk.nnames, chk.paths, chk.n)
+            if q1 != q2:
+                bad = [i for i, (x, y) in enumerate(zip(q1, q2)) if x != y][0]
+                lab = q_label(bad, chk.n, chk.nnames, chk.paths)
+                ctx.fail("C09:history:query", f"on long-lived objects, after {k} edits, {lab} answers {q1[bad]}; the ordered tree implies {q2[bad]}",
+                         {"kind": "impl-vs-statement", "names": [NAME_STR[x] for x in names], "history_from_all_detached": ops[:k],
+                          "query": lab, "observed": q1[bad], "expected": q2[bad], "note": "same objects used for the whole history"})
+        ret = apply_impl(objs, op)
+        st = observe(objs)
+        ctx.count("live-object-steps")
+        if (st, ret) != tuple(obs[k]):
+            ctx.fail("C09:history:" + op[0], f"step {k} ({op}) on long-lived objects gives {ret} / children {[list(x) for x in st[0]]}, "
+                     f"on freshly built objects in the same state {obs[k][1]} / {[list(x) for x in obs[k][0][0]]}",
+                     {"kind": "impl-vs-statement", "names": [NAME_STR[x] for x in names], "history_from_all_detached": ops[:k + 1],
+                      "observed_on_long_lived_objects": [st, ret], "observed_on_fresh_objects": list(obs[k]),
+                      "note": "the result depends on earlier calls on the same objects (" + label + ")"})
+            return
+
+
 # directed histories: regression cases of the fixed defects and one boundary case that is
 # outside the claim (model-vs-implementation only)
 def directed():
@@ -534,6 +565,7 @@ def run_directed(ctx, name, names, ops, in_claim, nnames, paths):
         st = st2
     if in_claim:
         chk.queries(st, ops)
+        live_pass(ctx, chk, ops, obs, name)
     return obs
 
 
@@ -601,6 +633,7 @@ def run(ctx):
         mid = obs[len(obs) // 2][0] if obs else initial_state(n)
         wq = [chk.queries(mid, ops[:len(obs) // 2 + 1]), chk.queries(final, ops)]
         ctx.count("random-history-steps", len(ops))
+        live_pass(ctx, chk, ops, obs, "random history")
         nm = f"C09_rand_{hi}"
         text = (HEADER + f"Definition s0 := {c_state(names, initial_state(n))}.\n" +
                 "Definition ops := " + clist(c_op(op) for op in ops) + ".\n" +
